@@ -1,10 +1,12 @@
 package node
 
 import (
+	"bytes"
 	"errors"
 	"fmt"
 	"io"
 	"net"
+	"os"
 	"strings"
 	"sync"
 	"sync/atomic"
@@ -36,6 +38,10 @@ type recConn struct {
 	failSetAt int // fail the n-th Set*Deadline call (1-based), 0 never
 	sets      int
 	err       error
+	// what the next wrapped Read / Write returns (nil: everything / one byte, no error) and what Write was given
+	nextN   *int
+	nextErr error
+	given   [][]byte
 }
 
 func (c *recConn) log(op string, t time.Time) {
@@ -43,11 +49,31 @@ func (c *recConn) log(op string, t time.Time) {
 	c.calls = append(c.calls, connCall{op, t, time.Now()})
 	c.mu.Unlock()
 }
-func (c *recConn) Read(b []byte) (int, error)  { c.log("Read", time.Time{}); return 1, nil }
-func (c *recConn) Write(b []byte) (int, error) { c.log("Write", time.Time{}); return len(b), nil }
-func (c *recConn) Close() error                { c.log("Close", time.Time{}); return nil }
-func (c *recConn) LocalAddr() net.Addr         { return &net.TCPAddr{} }
-func (c *recConn) RemoteAddr() net.Addr        { return &net.TCPAddr{} }
+func (c *recConn) Read(b []byte) (int, error) {
+	c.log("Read", time.Time{})
+	if c.nextN != nil {
+		n, err := *c.nextN, c.nextErr
+		c.nextN, c.nextErr = nil, nil
+		return n, err
+	}
+	return 1, nil
+}
+func (c *recConn) Write(b []byte) (int, error) {
+	c.log("Write", time.Time{})
+	c.given = append(c.given, append([]byte(nil), b...))
+	if c.nextN != nil {
+		n, err := *c.nextN, c.nextErr
+		c.nextN, c.nextErr = nil, nil
+		if n > len(b) {
+			n = len(b)
+		}
+		return n, err
+	}
+	return len(b), nil
+}
+func (c *recConn) Close() error         { c.log("Close", time.Time{}); return nil }
+func (c *recConn) LocalAddr() net.Addr  { return &net.TCPAddr{} }
+func (c *recConn) RemoteAddr() net.Addr { return &net.TCPAddr{} }
 func (c *recConn) SetDeadline(t time.Time) error {
 	c.log("SetDeadline", t)
 	return nil
@@ -72,17 +98,38 @@ func TestC14Timednetconn(t *testing.T) {
 		wt := time.Duration(rapid.IntRange(1, 5000).Draw(t, "wt_ms")) * time.Millisecond
 		rc := &recConn{err: errSet, failSetAt: rapid.IntRange(0, 12).Draw(t, "fail_set_at")}
 		c := timednetconn.New(rt, wt, rc)
-		ops := rapid.SliceOfN(rapid.SampledFrom([]string{"R", "W"}), 1, 25).Draw(t, "ops")
-		buf := make([]byte, 4)
+		// R, W: the wrapped call does its job; Rz: the wrapped Read returns (0, nil) - an empty datagram; Re: it fails;
+		// Wp: the wrapped Write takes part of the buffer and fails (a deadline on a slow link); We: it takes nothing
+		ops := rapid.SliceOfN(rapid.SampledFrom([]string{"R", "W", "R", "W", "Rz", "Re", "Wp", "We"}), 1, 25).Draw(t, "ops")
+		errWrapped := &net.OpError{Op: "io", Net: "tcp", Err: os.ErrDeadlineExceeded}
 		sets := 0
-		for i, op := range ops {
+		for i, fullOp := range ops {
+			op := fullOp[:1]
+			buf := []byte{byte(i), byte(i + 1), byte(i + 2), byte(i + 3), 0xA5, byte(i)}
+			wantN, wantErr := 1, error(nil)
+			if op == "W" {
+				wantN = len(buf)
+			}
+			switch fullOp {
+			case "Rz":
+				z := 0
+				rc.nextN, wantN = &z, 0
+			case "Re", "We":
+				z := 0
+				rc.nextN, rc.nextErr, wantN, wantErr = &z, errWrapped, 0, errWrapped
+			case "Wp":
+				k := 1 + i%4
+				rc.nextN, rc.nextErr, wantN, wantErr = &k, errWrapped, k, errWrapped
+			}
 			before := time.Now()
 			mark := len(rc.calls)
+			givenBefore := len(rc.given)
 			var err error
+			var gotN int
 			if op == "R" {
-				_, err = c.Read(buf)
+				gotN, err = c.Read(make([]byte, 4))
 			} else {
-				_, err = c.Write(buf)
+				gotN, err = c.Write(buf)
 			}
 			after := time.Now()
 			sets++
@@ -104,19 +151,23 @@ func TestC14Timednetconn(t *testing.T) {
 				if len(calls) != 1 {
 					t.Fatalf("op %d: the wrapped %s was issued although arming the deadline failed", i, wantOp)
 				}
+				rc.nextN, rc.nextErr = nil, nil
 				continue
 			}
-			if err != nil {
-				t.Fatalf("op %d: unexpected error %v", i, err)
+			if err != wantErr || gotN != wantN {
+				t.Fatalf("op %d (%s of %v): the wrapped call returned (%d, %v), the wrapper returned (%d, %v): results are passed through as they are", i, fullOp, ops, wantN, wantErr, gotN, err)
 			}
 			if len(calls) != 2 || calls[1].op != wantOp {
-				t.Fatalf("op %d (%s): calls on the wrapped connection: %v", i, op, calls)
+				t.Fatalf("op %d (%s of %v): calls on the wrapped connection: %v (one armed deadline and one %s per call, nothing else)", i, fullOp, ops, calls, wantOp)
+			}
+			if op == "W" && (len(rc.given) != givenBefore+1 || !bytes.Equal(rc.given[givenBefore], buf)) {
+				t.Fatalf("op %d (%s of %v): Write(%x) handed %x to the wrapped connection: each write carries what its caller gave it, nothing left over from earlier calls", i, fullOp, ops, buf, rc.given[givenBefore:])
 			}
 		}
 		hasR, hasW := false, false
 		for _, o := range ops {
-			hasR = hasR || o == "R"
-			hasW = hasW || o == "W"
+			hasR = hasR || o[:1] == "R"
+			hasW = hasW || o[:1] == "W"
 		}
 		rec.Case(hasR && hasW, evid.HashS(strings.Join(ops, ""), fmt.Sprint(rt, wt, rc.failSetAt)), "timednetconn")
 	})
